@@ -10,7 +10,7 @@ import (
 // notApplicable: properties that static analysis cannot decide, with the reason.
 var notApplicable = map[string]string{
 	"C18": "totality/offset-correctness/determinism quantify over all byte strings through ~150 tokenizers and filters; the only static handle (bounds obligations on rune-slice indexing) needs a value-range analysis whose unproven residue on correct code would be false alarms; no sound static rule in reach",
-	"C20": "the statement is arithmetic on rune windows and location intervals; no necessary condition is visible in the code's shape without a sound interval analysis over utf8 decoding loops",
+
 }
 
 var allPropertyIDs = []string{"C01", "C02", "C03", "C04", "C05", "C06", "C07", "C08", "C09", "C10", "C11", "C12", "C13", "C14", "C15", "C16", "C17", "C18", "C19", "C20"}
